@@ -61,11 +61,39 @@ def run(ctx):
     ctx.cov["recorded_random"] += len(traces)
     O.validate(ctx, traces, "random")
     seeded_parallel(ctx)
+    deprecated_files(ctx, cases)
     from harness.drivers import _modes
     _modes.check_parallel_extras(ctx)
     ctx.assumptions += ["completion order is perturbed by a sleep that decreases with the parameter code; natural races "
                         "are never required to occur", "process-pool runs cannot be observed from inside: only the "
                         "merged data (which codes the applied values) is validated for them"]
+
+
+def deprecated_files(ctx, cases):
+    """The deprecated entry point pyxel.observation_mode writes files without reporting them: file <n> must hold
+    the bucket of the n-th parameter combination under every scheduler, as it does sequentially."""
+    from harness import check, outputs
+    sel = [c for c in cases if c["mode"] == "product" and any(p["enabled"] and p["sink"] == "photon" for p in c["params"])]
+    sel = sel[: ctx.pick(6, 40)]
+    jobs = []
+    for k, c in enumerate(sel):
+        jobs.append({"ocfg": dict(c, dask=False), "variant": k})
+        sch, w = [("threads", 2), ("threads", 4), ("threads", 16), ("synchronous", None)][k % 4]
+        jobs.append({"ocfg": dict(c, dask=True), "variant": k, "scheduler": sch, "workers": w, "delay": 2.0})
+    res = check.pmap(outputs.deprecated_files_job, jobs, chunksize=1)
+    ctx.cov["replayed_cases"] += len(res)
+    for ref, par in zip(res[0::2], res[1::2]):
+        case = {"kind": "depfiles", "job": par["job"]}
+        if ref["error"] or not ref["files"]:
+            continue          # the sequential reference could not be produced: nothing to compare with
+        if par["error"]:
+            ctx.violation("files.deprecated.failed", f"pyxel.observation_mode failed under {par['job'].get('scheduler')}: "
+                          f"{par['error'][-300:]}", case, {})
+        elif par["files"] != ref["files"]:
+            ctx.violation("files.deprecated", f"files of the parallel observation (run number -> content) {par['files']} do not "
+                          f"correspond to the parameter combinations as they do sequentially {ref['files']}", case,
+                          {"scheduler": par["job"].get("scheduler")})
+    ctx.notes["deprecated_entry_point_file_runs"] = len(res)
 
 
 def seeded_parallel(ctx):
@@ -98,6 +126,15 @@ def seeded_parallel(ctx):
 
 
 def replay(ctx, payload):
+    if payload["case"].get("kind") == "depfiles":
+        from harness import outputs
+        j = payload["case"]["job"]
+        par = outputs.deprecated_files_job(j)
+        ref = outputs.deprecated_files_job({"ocfg": dict(j["ocfg"], dask=False), "variant": j.get("variant", 0)})
+        print(ref["files"], par["files"], par["error"][-200:])
+        if par["error"] or par["files"] != ref["files"]:
+            ctx.violation("files.deprecated", f"{par['files']} vs {ref['files']}", payload["case"], {})
+        return ctx.finish()
     if payload["case"].get("kind") == "threads":
         from harness import seedthreads
         return seedthreads.replay_threads(ctx, payload)
